@@ -52,7 +52,7 @@ def conformance(cls, tier, seed=0):
     if os.path.exists(cp):
         return json.load(open(cp))
     import checks
-    workdir = os.path.join(OUT, 'work', 'l2_' + cls)
+    workdir = os.path.join(OUT, 'work', 'l2_%s.%d' % (cls, os.getpid()))
     os.makedirs(workdir, exist_ok=True)
     execs = []
     ptext = {}
@@ -169,7 +169,7 @@ def model_check(cls, group, tier, mo, want=None):
         t0 = time.time()
         r = vlib.model_check(CLS_MODULE[cls], '%s_%s_%s' % (cls, group, tag), consts, [vlib.mo_def(mo)] + defs, invariants=invs,
                              properties=props, spec=spec, workers=12, heap='12g', timeout=1700 if tier == 'quick' else 7000,
-                             workdir=os.path.join(OUT, 'work', 'mc'))
+                             workdir=os.path.join(OUT, 'work', 'mc.%d' % os.getpid()))
         res = {'cls': cls, 'group': group, 'tag': tag, 'ok': r['ok'], 'violated': r['violated'], 'states': r['distinct'],
                'transitions': r['states'], 'wall': round(time.time() - t0, 1), 'invariants': invs, 'properties': props,
                'consts': {k: (sorted(v) if isinstance(v, (set, frozenset)) else v) for k, v in consts.items()},
@@ -360,7 +360,7 @@ def id_conformance(n, tier, seed=0):
     cp = _cache_path('idconf', key)
     if os.path.exists(cp):
         return json.load(open(cp))
-    workdir = os.path.join(OUT, 'work', 'l2_id%d' % n)
+    workdir = os.path.join(OUT, 'work', 'l2_id%d.%d' % (n, os.getpid()))
     os.makedirs(workdir, exist_ok=True)
     progs = checks.id_programs(n, tier)
     ptext = {p.split()[1]: p for p in progs}
@@ -408,7 +408,7 @@ def id_model_check(n, order, tier, want):
     r = vlib.model_check('IdImpl', 'id_n%d' % n, {'Workers': set(range(1, workers[0] + 1)), 'N': n, 'ExitOrder': '"%s"' % order,
                                                    'MaxGen': workers[1]}, [], invariants=invs, properties=props,
                          spec='FairSpec' if props else 'Spec', workers=12, heap='8g', timeout=1700 if q else 7000,
-                         workdir=os.path.join(OUT, 'work', 'mc'))
+                         workdir=os.path.join(OUT, 'work', 'mc.%d' % os.getpid()))
     if not r['ok'] and not r['violated']:
         raise InfraError('IdImpl model checking did not complete: ' + r['out'][-2000:])
     res = {'tag': 'N=%d workers=%d generations=%d' % (n, workers[0], workers[1]), 'ok': r['ok'], 'violated': r['violated'],
@@ -451,7 +451,7 @@ def epoch_model_check(group, tier, order):
             continue
         t0 = time.time()
         r = vlib.model_check('EpochImpl', 'ep_%s_%s' % (group, tag.replace('-', '_')), consts, [], invariants=invs, properties=props,
-                             constraint=con, workers=12, heap='12g', timeout=1700 if q else 7000, workdir=os.path.join(OUT, 'work', 'mc'))
+                             constraint=con, workers=12, heap='12g', timeout=1700 if q else 7000, workdir=os.path.join(OUT, 'work', 'mc.%d' % os.getpid()))
         if not r['ok'] and not r['violated']:
             raise InfraError('EpochImpl model checking did not complete: ' + r['out'][-2000:])
         cex = parse_cex(r['out']) if r['violated'] else None
